@@ -223,7 +223,7 @@ class _V(Record):
 
 def _interp(consts: dict[str, ast.AST]) -> Interp:
     """absint interpreter whose globals hold the module constants the converters use (sets, compiled regex)."""
-    env: dict = {}
+    env: dict = {"map": map}
 
     def mk_regex(pattern: str) -> Record:
         rx = re.compile(pattern)  # stdlib engine on the repo's pattern *string*
@@ -464,7 +464,7 @@ TWINS: list[Twin] = [
     # ---- R2 breaking
     Twin("equal versions are a change", _VE, "    if current <= previous:", "    if current < previous:", "C34.R2"),
     Twin("minor test not strict", _VE, "current_release[1] > previous_release[1]", "current_release[1] >= previous_release[1]", "C34.R2"),
-    Twin("short padding", _VE, "current_release = (current.release + (0, 0, 0))[:3]", "current_release = (current.release + (0, 0))[:3]", "C34.R2"),
+    Twin("short padding", _VE, "current_release = (current.release + (0, 0, 0))[:3]", "current_release = (current.release + (0,))[:3]", "C34.R2"),
     Twin("minor tested before major", _VE, _MAJ + _MIN, _MIN + _MAJ, "C34.R2"),
     Twin("ordering on the raw strings", _VE, "    if current <= previous:", "    if current_version <= previous_version:", "C34.R2"),
     # ---- R2 benign
